@@ -179,6 +179,12 @@ func (r *run) peerGotReturn(q *myQuestion) {
 		return
 	}
 	ac := r.appCalls[q.token]
+	if q.badDesc {
+		if ac != nil || q.retErr == "" {
+			s.Probe("call_with_bad_descriptor_was_delivered")
+		}
+		return
+	}
 	{
 		// the target resolved to a capability hosted by the peer itself: the Conn forwarded the call to us
 		// (and the peer may in turn have reflected it to an export of the Conn: the answer is still what
